@@ -314,6 +314,43 @@ fn body(ctx: &mut Ctx) {
             expect_panic(ctx, "BigInt << negative", &args, x);
             let x = call(ctx, || &u >> -1i64);
             expect_panic(ctx, "BigUint >> negative", &args, x);
+            // every signed shift type x negative amounts incl. multiples of the digit width and the type minimum
+            macro_rules! neg_shifts {
+                ($T:ty, $tn:expr) => {{
+                    for k in [-1i128, -2, -63, -64, -65, -127, -128, -192, <$T>::MIN as i128] {
+                        if k >= <$T>::MIN as i128 {
+                            let t = k as $T;
+                            let sargs = || vec![format!("x={}", n.to_hex()), format!("k={} ({})", k, $tn)];
+                            let x = call(ctx, || &u >> t);
+                            expect_panic(ctx, concat!("BigUint >> negative ", $tn), &sargs, x);
+                            let x = call(ctx, || &u << t);
+                            expect_panic(ctx, concat!("BigUint << negative ", $tn), &sargs, x);
+                            let x = call(ctx, || &i >> t);
+                            expect_panic(ctx, concat!("BigInt >> negative ", $tn), &sargs, x);
+                            let x = call(ctx, || &i << t);
+                            expect_panic(ctx, concat!("BigInt << negative ", $tn), &sargs, x);
+                            let x = call(ctx, || {
+                                let mut y = u.clone();
+                                y >>= t;
+                                y
+                            });
+                            expect_panic(ctx, concat!("BigUint >>= negative ", $tn), &sargs, x);
+                            let x = call(ctx, || {
+                                let mut y = i.clone();
+                                y <<= t;
+                                y
+                            });
+                            expect_panic(ctx, concat!("BigInt <<= negative ", $tn), &sargs, x);
+                        }
+                    }
+                }};
+            }
+            neg_shifts!(i8, "i8");
+            neg_shifts!(i16, "i16");
+            neg_shifts!(i32, "i32");
+            neg_shifts!(i64, "i64");
+            neg_shifts!(i128, "i128");
+            neg_shifts!(isize, "isize");
         }
         ctx.sample(|| "zero modulus, negative exponent, negative shift, even root of a negative, zeroth root, multiple-of zero".to_string());
     }
